@@ -161,10 +161,22 @@ def _decode_one(mat):
     t_, nc, d, m = c["T"], c["NC"], c["D"], c["M"]
     dec = c["dec"]
     probs = np.array([[r[ch] for ch in range(1, nc + 1)] + [r[0]] for r in mat], dtype=float) / d
+    if c.get("tiny"):
+        # weight-1 entries become probabilities of 1e-6 (log -13.8, below the default pre-selection threshold -10); what they
+        # lose goes to the largest entry of the row, so the row stays normalised and its zero pattern unchanged
+        for row in probs:
+            small = np.isclose(row, 1.0 / d)
+            if small.any() and not small.all():
+                gain = (1.0 / d - 1e-6) * small.sum()
+                row[small] = 1e-6
+                row[int(np.argmax(np.where(small, -1.0, row)))] += gain
+            elif small.all():
+                row[1:] = 1e-6
+                row[0] = 1.0 - 1e-6 * (len(row) - 1)
     with np.errstate(divide="ignore", invalid="ignore"):
         lp = np.log(probs)
     rec = {"mat": [list(r) for r in mat], "frames": [], "outcome": "ok", "best": [], "confset": [],
-           "has_h": False, "hret": []}
+           "has_h": False, "hret": [], "support": bool(c.get("tiny"))}
     use_lm, eos = c["UseLm"], c["Eos"]
     wrapped = c.get("lm_impl") == "wrapped"
     if wrapped:
